@@ -1653,7 +1653,8 @@ func toStatementApi(s *oc.Statement) *api.Statement {
 		cs.RpkiResult = api.ValidationState_VALIDATION_STATE_UNSPECIFIED
 	}
 
-	// the option is "add" / "remove" / "replace"
+	// the option is "add" / "remove" / "replace"; a replace by the empty list removes every community
+	// and must be reported, an add or remove of nothing is no action
 	communityAction := func(option string, list []string) *api.CommunityAction {
 		var t api.CommunityAction_Type
 		switch oc.BgpSetCommunityOptionType(strings.ToLower(option)) {
@@ -1666,7 +1667,7 @@ func toStatementApi(s *oc.Statement) *api.Statement {
 		default:
 			return nil
 		}
-		if len(list) == 0 {
+		if len(list) == 0 && t != api.CommunityAction_TYPE_REPLACE {
 			return nil
 		}
 		return &api.CommunityAction{Type: t, Communities: list}
